@@ -420,7 +420,9 @@ def main(chk: core.Check, replay: typing.Optional[str] = None) -> int:
     t_impl = time.time() - chk.t0 - t_coq
     # 3. the model on the same cases
     model, merr = (None, 'model not built')
-    if os.path.exists(os.path.join(core.COQ, 'theories', 'Generated', 'Gen_Listing.vo')) and res.translators_ok:
+    gl = os.path.join(core.COQ, 'theories', 'Generated', 'Gen_Listing.v')
+    listing_ok = any(m.startswith('listing: ok') for m in res.translator_msgs)   # a broken shape pin alone does not stop the model
+    if listing_ok and os.path.exists(gl + 'o') and os.path.getmtime(gl + 'o') >= os.path.getmtime(gl):
         model, merr = run_model(cases, results, scratch)
     if model is None:
         broken.append('model cannot be evaluated: ' + merr)
